@@ -300,6 +300,9 @@ func (rr *renderer) renderList(f *fileBuf, dirs []*Dir, depth int) {
 				if d.BodyKind == "enum" {
 					code = 'E'
 				}
+				if d.BodyKind == "regex" {
+					code = 'T' // the scanner reports a regex body as a text lexeme
+				}
 				bb := -1
 				be := -1
 				for _, bl := range d.Body {
